@@ -9,6 +9,7 @@ CONSTANTS
   QMax = 2
   Win = 2
   Timelies = {0, 1}
+  Fifos = {1}
 INVARIANT NoCrash
 INVARIANT MarkIsTrue
 PROPERTY Delivers
